@@ -17,8 +17,15 @@ import time
 VERIF = os.path.dirname(os.path.dirname(os.path.abspath(__file__)))
 
 
+def _default_sigint():
+    # when this tool runs from a background job SIGINT is inherited as "ignored"; demonstrations that send themselves a Ctrl-C need the default
+    import signal
+
+    signal.signal(signal.SIGINT, signal.SIG_DFL)
+
+
 def sh(cmd, **kw):
-    return subprocess.run(cmd, shell=isinstance(cmd, str), capture_output=True, text=True, **kw)
+    return subprocess.run(cmd, shell=isinstance(cmd, str), capture_output=True, text=True, preexec_fn=_default_sigint, **kw)
 
 
 def main():
